@@ -763,4 +763,118 @@ theorem hist_lookup_newest {cfg : Cfg} (hw : WFCfg cfg) (hc : cfg.useCache = tru
     obtain ⟨hm, hle, hmax⟩ := lastSat_some hs hl
     exact ⟨e, hm, hle, hmax, rfl⟩
 
+/-- `pullInputs` only reads the caches -/
+theorem pullInputs_congr (cfg : Cfg) {s s1 : State} (h : OutEq s s1) (p : Sid) (c : TT) (inp : InputData) :
+    pullInputs cfg s1 p c inp = pullInputs cfg s p c inp := by
+  unfold pullInputs
+  apply foldl_congr_mem
+  intro acc e _
+  simp only [h e.1]
+
+/-- **the step request carries the history's values**: when a step of `p` begins (in a run whose output times do not go
+back), the inputs sent with the request are `pullSpec` of the never-pruned history applied to the set_data / remembered /
+pushed inputs -/
+theorem begin_pulls_history {cfg : Cfg} (hw : WFCfg cfg) (hc : cfg.useCache = true) (hi : InitSorted cfg) (hp : PullOk cfg)
+    {s s' : State} (hr : ReachM cfg s) (hnf0 : s.failed = none) {p : Sid} (h : step cfg s (.deps p) = some s') (hnf : s'.failed = none) :
+    ∃ c inp0 m, s'.log = .begin p c (pullSpec cfg (fun q => histOf cfg q s.log) p c inp0) m :: s.log := by
+  simp only [step, stepDeps] at h
+  split at h
+  · rename_i hlive
+    have hpn : p < cfg.n := by
+      simp only [live, Bool.and_eq_true, decide_eq_true_eq] at hlive
+      exact hlive.2
+    cases hpc : (s.sims p).pc with
+    | waitDeps t =>
+      simp only [hpc] at h
+      split at h
+      · cases hnext : (s.sims p).next with
+        | nil => simp [hnext] at h
+        | cons c rest =>
+          simp only [hnext, Option.some.injEq] at h
+          subst h
+          -- `c` is not before the last step
+          obtain ⟨hcore, _⟩ := reach_good hw hr.reach hnf0
+          have hso := hcore p hpn
+          have hlastc : lastTime s p ≤ (TT.time c : Int) := by
+            unfold lastTime
+            cases hl : (s.sims p).last with
+            | none => simp only; omega
+            | some t =>
+              simp only
+              have hb : t ∈ (s.sims p).begun := reach_lastOk hw hr.reach hnf0 p hpn t hl
+              have h1 := hso.begun_le t hb
+              have h2 := hso.le_next c (by rw [hnext]; exact List.mem_cons_self)
+              have := TT.time_mono (TT.le_trans h1 h2)
+              omega
+          obtain ⟨s1, hdef⟩ : ∃ s1, s1 = s.upd p (fun x => { x with cur := some c, next := rest }) := ⟨_, rfl⟩
+          have hs1 : OutEq s s1 := by rw [hdef]; exact outEq_upd _ _ _ (fun _ => rfl)
+          have hlog1 : s1.log = s.log := by rw [hdef]; rfl
+          have hf1 : s1.failed = none := by rw [hdef]; exact hnf0
+          unfold beginStep at hnf ⊢
+          simp only at hnf ⊢
+          rw [← hdef] at hnf ⊢
+          split
+          · rename_i hbad
+            rw [if_pos hbad] at hnf
+            exfalso
+            unfold State.fail at hnf
+            rw [hf1] at hnf
+            cases hnf
+          · rename_i hbad
+            split
+            · rename_i hloop
+              rw [if_neg hbad, if_pos hloop] at hnf
+              exfalso
+              unfold State.fail at hnf
+              rw [hf1] at hnf
+              cases hnf
+            · refine ⟨c, (bufferTake (s1.sims p).buffer (TT.time c) ((s1.sims p).persistent.foldl
+                    (fun acc e => if InputData.has acc e.1 then acc else acc ++ [e]) (s1.sims p).setData)).1,
+                maxAdvance cfg (getInputData cfg s1 p c).2 p c, ?_⟩
+              rw [← pull_refines_spec hw hc hi hp hr hnf0 hpn c hlastc, ← pullInputs_congr cfg hs1 p c, ← hlog1]
+              rfl
+      · cases h
+    | init => simp [hpc] at h
+    | awaitSettle a dl => simp [hpc] at h
+    | inStep => simp [hpc] at h
+    | inGet => simp [hpc] at h
+    | done => simp [hpc] at h
+  · cases h
+
+/-! ### executable form of the run hypothesis -/
+
+def monoActB (cfg : Cfg) (s : State) : Action → Bool
+  | .dataReply p d => match (s.sims p).cur with
+    | some c => (histOf cfg p s.log).all (fun e => decide (e.1 ≤ (outTimeOf c d).1))
+    | none => true
+  | _ => true
+
+theorem monoActB_sound {cfg : Cfg} {s : State} {a : Action} (h : monoActB cfg s a = true) : MonoAct cfg s a := by
+  intro p d c ha hcur e he
+  subst ha
+  simp only [monoActB, hcur, List.all_eq_true, decide_eq_true_eq] at h
+  exact h e he
+
+/-- every `get_data` reply of the run reports an output time that is not before an earlier one -/
+def monoRunB (cfg : Cfg) : State → List Action → Bool
+  | _, [] => true
+  | s, a :: as => monoActB cfg s a && match step cfg s a with
+    | some s' => monoRunB cfg s' as
+    | none => true
+
+theorem exec_reachM {cfg : Cfg} : ∀ (as : List Action) {s s' : State}, ReachM cfg s → exec cfg s as = some s' →
+    monoRunB cfg s as = true → ReachM cfg s'
+  | [], s, s', hr, he, _ => by
+    simp only [exec, Option.some.injEq] at he
+    subst he; exact hr
+  | a :: as, s, s', hr, he, hm => by
+    simp only [exec] at he
+    simp only [monoRunB, Bool.and_eq_true] at hm
+    cases hs : step cfg s a with
+    | none => rw [hs] at he; cases he
+    | some s1 =>
+      rw [hs] at he
+      simp only [hs] at hm
+      exact exec_reachM as (ReachM.step hr hs (monoActB_sound hm.1)) he hm.2
+
 end Mosaik
